@@ -38,7 +38,10 @@ type fOp struct {
 	DeadlineUs int    `json:"deadline_us,omitempty"`
 	CancelUs   int    `json:"cancel_us,omitempty"`
 	DoneCtx    bool   `json:"done_ctx,omitempty"` // context already cancelled before the call
+	Cause      bool   `json:"cause,omitempty"`    // the context carries a custom cause (WithTimeoutCause / WithCancelCause)
 }
+
+var errPlanCause = errors.New("custom cause")
 
 type fEvent struct {
 	AtUs int    `json:"at_us"`
@@ -61,6 +64,15 @@ type fPlan struct {
 	Cfg     fCfg     `json:"cfg"`
 	Callers [][]fOp  `json:"callers"`
 	Events  []fEvent `json:"events,omitempty"`
+	// IntFaults drop the connection at a protocol step the client takes on its own (the Nth PING, UNSUBSCRIBE,
+	// MULTI ... the server receives, counted over all connections), so failure points are not limited to user commands.
+	IntFaults []fIntFault `json:"internal_faults,omitempty"`
+}
+
+type fIntFault struct {
+	Cmd  string `json:"cmd"`
+	Nth  int    `json:"nth"`
+	Kind string `json:"kind"` // drop-before drop-after drop-mid
 }
 
 type fResult struct {
@@ -138,10 +150,30 @@ func fRunPlan(t *testing.T, plan fPlan) (run fRun) {
 			}
 			return 0
 		}
+		intSeen := map[string]int{}
 		srv.Hooks.Fault = func(c *fakeredis.Conn, req int, argv []string) fakeredis.Fault {
 			uid := fUIDOf(argv)
 			cm, ok := byUID[uid]
 			if !ok {
+				if len(plan.IntFaults) > 0 && len(argv) > 0 {
+					name := strings.ToUpper(argv[0])
+					mu.Lock()
+					n := intSeen[name]
+					intSeen[name] = n + 1
+					mu.Unlock()
+					for _, f := range plan.IntFaults {
+						if f.Cmd == name && f.Nth == n {
+							switch f.Kind {
+							case "drop-before":
+								return fakeredis.Fault{Kind: fakeredis.DropBeforeExec}
+							case "drop-after":
+								return fakeredis.Fault{Kind: fakeredis.DropAfterExec}
+							default:
+								return fakeredis.Fault{Kind: fakeredis.DropMidReply}
+							}
+						}
+					}
+				}
 				return fakeredis.Fault{}
 			}
 			mu.Lock()
@@ -230,8 +262,15 @@ func fRunPlan(t *testing.T, plan fPlan) (run fRun) {
 					case op.DoneCtx:
 						ctx, cancel = context.WithCancel(ctx)
 						cancel()
+					case op.DeadlineUs > 0 && op.Cause:
+						ctx, cancel = context.WithTimeoutCause(ctx, time.Duration(op.DeadlineUs)*time.Microsecond, errPlanCause)
 					case op.DeadlineUs > 0:
 						ctx, cancel = context.WithTimeout(ctx, time.Duration(op.DeadlineUs)*time.Microsecond)
+					case op.CancelUs > 0 && op.Cause:
+						var cc context.CancelCauseFunc
+						ctx, cc = context.WithCancelCause(ctx)
+						cancel = func() { cc(errPlanCause) }
+						time.AfterFunc(time.Duration(op.CancelUs)*time.Microsecond, cancel)
 					case op.CancelUs > 0:
 						ctx, cancel = context.WithCancel(ctx)
 						time.AfterFunc(time.Duration(op.CancelUs)*time.Microsecond, cancel)
@@ -340,10 +379,11 @@ func fRunPlan(t *testing.T, plan fPlan) (run fRun) {
 // ---- observed attempts of each command, from the server's event log
 
 type fAttempt struct {
-	Conn, Req  int
-	Outcome    string // ok loading err nil transport
-	RecvAtUs   int64
-	ConnKilled bool // the connection was dropped by the server side at some point: a logged reply may not have arrived
+	Conn, Req               int
+	Outcome                 string // ok loading err nil transport
+	RecvAtUs                int64
+	ArrAtUs                 int64 // when the request's last byte left the client (reached the server's socket)
+	ConnKilled              bool  // the connection was dropped by the server side at some point: a logged reply may not have arrived
 	ConnOpenUs, ConnCloseUs int64 // -1: still open at the end
 }
 
@@ -354,7 +394,7 @@ func fAttempts(events []fakeredis.Event) map[string][]fAttempt {
 	for _, e := range events {
 		uid := fUIDOf(e.Argv)
 		if e.Kind == "recv" && uid != "" {
-			out2[uid] = append(out2[uid], fAttempt{Conn: e.Conn, Req: e.Req, Outcome: "transport", RecvAtUs: e.At})
+			out2[uid] = append(out2[uid], fAttempt{Conn: e.Conn, Req: e.Req, Outcome: "transport", RecvAtUs: e.At, ArrAtUs: e.Arr})
 			idxOf[key{e.Conn, e.Req}] = [2]any{uid, len(out2[uid]) - 1}
 		}
 	}
@@ -491,9 +531,27 @@ func genFaultPlan(rt *rapid.T, bias string) fPlan {
 			case 1:
 				op.CancelUs = rapid.SampledFrom([]int{1, 500, 5000, 30000}).Draw(rt, "cancel")
 			}
+			if op.DeadlineUs > 0 || op.CancelUs > 0 {
+				op.Cause = rapid.IntRange(0, 2).Draw(rt, "cause") == 0
+			}
 			ops[i] = op
 		}
 		p.Callers = append(p.Callers, ops)
+	}
+	if bias == "lifetime" && len(p.Callers) >= 2 && rapid.Bool().Draw(rt, "drainWindowShape") {
+		// Directed shape: a pipelined connection whose lifetime ends while a slow command is in flight (so the
+		// close has to wait for it) and a fault-free write issued by another caller shortly after the expiry.
+		p.Cfg.Pipelining = true
+		life := p.Cfg.ConnLifetimeUs
+		slow := &p.Callers[0][0]
+		slow.GapUs, slow.Kind, slow.Key, slow.DeadlineUs, slow.CancelUs = rapid.IntRange(0, 20).Draw(rt, "slowGap"), "do", "", 0, 0
+		uid++
+		slow.Cmds = []fCmd{{UID: "u" + strconv.Itoa(uid), Class: rapid.SampledFrom([]string{"read", "write"}).Draw(rt, "slowClass"),
+			LatUs: life + rapid.SampledFrom([]int{30000, 300000}).Draw(rt, "slowExtra")}}
+		late := &p.Callers[1][0]
+		late.GapUs, late.Kind, late.Key, late.DeadlineUs, late.CancelUs = life+rapid.SampledFrom([]int{30, 1000, 20000}).Draw(rt, "lateAfter"), "do", "", 0, 0
+		uid++
+		late.Cmds = []fCmd{{UID: "u" + strconv.Itoa(uid), Class: "write"}}
 	}
 	ne := rapid.IntRange(0, 2).Draw(rt, "events")
 	for i := 0; i < ne; i++ {
